@@ -20,6 +20,7 @@ def run(ck, fb):
     r13j(ck, fb)
     r13k(ck, fb)
     r13l(ck, fb)
+    r13m(ck, fb)
 
 
 def _run0(ck, fb):
@@ -517,3 +518,39 @@ def r13l(ck, fb):
         ck.require(ok, 'R13l', 'receive_snapshot:own-instance-copy-is-not-a-heartbeat', s0.where(),
                    'every instance of a peer snapshot is applied with the current time, also the peer\'s copy of an instance this node owns',
                    'copies of own instances are told apart first')
+
+
+def r13m(ck, fb, R='R13m'):
+    ck.rule(R, 'the result of a persistent-host probe only touches persistent instances: in NamingActor::update_perpetual_health every Service method '
+               'that flips `healthy` is either called under a test of the stored instance\'s `ephemeral` flag or tests it itself before the flip '
+               '(sibling agreement: the "probe succeeded" method does, so the "probe failed" path must too). Otherwise a probe answer that arrives '
+               'after the address was registered again as an ephemeral instance marks a heart-beating / gRPC-connected instance unhealthy; for a '
+               'gRPC instance nothing but a new registration sets it healthy again')
+    b = ck.body(NA + 'update_perpetual_health', R)
+    if not b:
+        return
+    n = 0
+    for s in b.sites:
+        nm = s.resolved or s.callee or ''
+        hb = fb.bodies.get(nm)
+        if hb is None or hb.parent or not nm.startswith(SV):
+            continue
+        flips = [(bb, st) for x in util.region(fb, hb) for (o, f, bb, st) in x.field_writes() if f == 'healthy' and o.endswith('naming::model::Instance')]
+        if not flips:
+            continue
+        n += 1
+        at_site = any(a[0] == 'field' and a[1][-1:] == ['ephemeral'] for a in cfg.guard_atoms(b, s.bb))
+        inside = all(any(a[0] == 'field' and a[1][-1:] == ['ephemeral'] for a in cfg.guard_atoms(hb, bb)) for (bb, st) in flips
+                     if True) and all(bb in range(len(hb.blocks)) for (bb, st) in flips)
+        # flips found in helpers of hb are judged in their own body
+        inside = True
+        for x in util.region(fb, hb):
+            for (o, f, bb, st) in x.field_writes():
+                if f == 'healthy' and o.endswith('naming::model::Instance'):
+                    if not any(a[0] == 'field' and a[1][-1:] == ['ephemeral'] for a in cfg.guard_atoms(x, bb)):
+                        inside = False
+        ck.require(at_site or inside, R, 'update_perpetual_health:%s:persistent-only' % nm.split('::')[-1], s.where(),
+                   'a probe result is applied through %s without a test of the instance\'s ephemeral flag: a late probe answer changes the health '
+                   'of an instance that is no longer persistent (registered again over gRPC or switched to ephemeral and heart-beating)' % nm.split('::')[-1],
+                   'guarded by ephemeral == false %s' % ('at the call' if at_site else 'inside'))
+    ck.floor(R, 'health-flipping calls in update_perpetual_health', n, 2)
